@@ -10,7 +10,7 @@ From GL Require Import Base.Bytes Base.Order Base.OrderProofs Codec.IKey Codec.I
   Lsm.IterPathProofs Lsm.IterPathAbs.
 From GL Require Mem.MemDB.
 From GL Require Import Iter.Cursor Iter.CursorProofs Iter.Merged Iter.MergedProofs Iter.Indexed Iter.IndexedProofs
-  Iter.DBIter Iter.LiveProofs Iter.DBIterProofs Iter.StackProofs Iter.DBIterCong Iter.InvertedProofs
+  Iter.DBIter Iter.LiveProofs Iter.DBIterProofs Iter.StackProofs Iter.DBIterCong Iter.InvertedProofs Iter.IterErr Iter.IterErrProofs
   Gen.ConstsOkC02 Corr.Cmps.
 Close Scope N_scope.
 
@@ -254,6 +254,127 @@ Theorem C02_db_iterator_correct_bytes_gen : forall c, comparer_ok c -> forall p,
 Proof. exact db_iterator_bytes_gen. Qed.
 Print Assumptions C02_db_iterator_correct_bytes_gen.
 
+(* 10. ERRORS AND RELEASE (Iter/IterErr.v: the error paths of merged_iter.go, indexed_iter.go, db_iter.go -
+       iterErr, indexErr/dataErr, strict vs non-strict, setErr - and Release / use after Release /
+       SetReleaser; children carry an error status). *)
+
+(* 10a. once an error is recorded every movement call returns false, Valid is false, Key/Value are nil and
+        the error stays (merged iterator; dbIter likewise; the indexed iterator returns false for ever -
+        its Key/Value/Valid are those of the data iterator whose call failed) *)
+Theorem C02_merged_error_stops : forall (K V C : Type) chstep chobs cherr pop strict (s : mestate K C) e ms,
+  me_err s = Some e ->
+  me_run K V C chstep chobs cherr pop strict s (map CMove ms) = Some (map (fun _ => dead_out K V e) ms).
+Proof. exact me_error_stops. Qed.
+Print Assumptions C02_merged_error_stops.
+
+Theorem C02_dbiter_error_stops : forall c p (C : Type) chstep chobs cherr seq strict fuel (s : destate C) e ms,
+  de_err s = Some e ->
+  de_run c p C chstep chobs cherr seq strict fuel s (map CMove ms) = Some (map (fun _ => ddead_out e) ms).
+Proof. exact de_error_stops. Qed.
+Print Assumptions C02_dbiter_error_stops.
+
+Theorem C02_indexed_error_stops : forall (K V D I C : Type) istep iobs ierr_of mk dstep dobs derr strict fuel
+  (s : xestate I C) e ms, xe_err s = Some e ->
+  xe_run K V D I C istep iobs ierr_of mk dstep dobs derr strict fuel s (map CMove ms) =
+  Some (map (fun _ => xe_out ierr_of dobs s false) ms).
+Proof. exact xe_error_stops. Qed.
+Print Assumptions C02_indexed_error_stops.
+
+(* 10b. after Release every movement call returns false, Valid is false, Key/Value are nil, and Error() is
+        ErrIterReleased - or the error recorded before the Release, which is kept *)
+Theorem C02_merged_after_release : forall (K V C : Type) chstep chobs cherr pop strict (s : mestate K C) ms,
+  me_run K V C chstep chobs cherr pop strict (me_release s) (map CMove ms) =
+  Some (map (fun _ => dead_out K V (err_after_release (me_err s))) ms).
+Proof. exact me_after_release. Qed.
+Print Assumptions C02_merged_after_release.
+
+Theorem C02_indexed_after_release : forall (K V D I C : Type) istep iobs ierr_of mk dstep dobs derr strict fuel
+  (s : xestate I C) ms,
+  xe_run K V D I C istep iobs ierr_of mk dstep dobs derr strict fuel (xe_release s) (map CMove ms) =
+  Some (map (fun _ => mkEO false None false (Some (err_after_release (xe_err s)))) ms).
+Proof. exact xe_after_release. Qed.
+Print Assumptions C02_indexed_after_release.
+
+Theorem C02_dbiter_after_release : forall c p (C : Type) chstep chobs cherr seq strict fuel (s : destate C) ms,
+  de_run c p C chstep chobs cherr seq strict fuel (de_release s) (map CMove ms) =
+  Some (map (fun _ => ddead_out (err_after_release (de_err s))) ms).
+Proof. exact de_after_release. Qed.
+Print Assumptions C02_dbiter_after_release.
+
+(* 10c. SetReleaser with a second non-nil releaser panics (util.ErrHasReleaser), after Release it panics
+        whatever the argument (util.ErrReleased) *)
+Theorem C02_set_releaser_twice_panics :
+  (forall (K C : Type) (s s1 : mestate K C), me_set_releaser s true = Some s1 -> me_set_releaser s1 true = None) /\
+  (forall (I C : Type) (s s1 : xestate I C), xe_set_releaser s true = Some s1 -> xe_set_releaser s1 true = None) /\
+  (forall (C : Type) (s s1 : destate C), de_set_releaser s true = Some s1 -> de_set_releaser s1 true = None) /\
+  (forall (K C : Type) (s : mestate K C) r, me_set_releaser (me_release s) r = None) /\
+  (forall (I C : Type) (s : xestate I C) r, xe_set_releaser (xe_release s) r = None) /\
+  (forall (C : Type) (s : destate C) r, de_set_releaser (de_release s) r = None).
+Proof.
+  split; [exact me_set_releaser_twice|]. split; [exact xe_set_releaser_twice|]. split; [exact de_set_releaser_twice|].
+  split; [exact me_set_releaser_after_release|]. split; [exact xe_set_releaser_after_release|exact de_set_releaser_after_release].
+Qed.
+Print Assumptions C02_set_releaser_twice_panics.
+
+(* 10d. the merged iterator over children that behave like cursors until one of them FAILS (a fuse: the n-th
+        call on that child returns false with an error that halts the merged iterator - any error under the
+        strict flag, any non-corruption error otherwise): for every call sequence there is a call number j
+        such that the first j outputs are exactly those of the cursor over the merge, with no error recorded,
+        and from call j on the outputs are (false, nil, nil), not valid, with the child's error recorded.
+        It stops, and it never shows a pair the cursor would not show at that call. *)
+Theorem C02_merged_error_prefix : forall (K V C : Type) (kcmp : K -> K -> comparison) chstep chobs pop strict
+  (ls : list (list (K * V))) (fits : list (fchild C)),
+  ord_ok kcmp -> pop_ok K kcmp pop ->
+  Forall (sorted_kv kcmp) ls -> NoDup (map fst (concat ls)) ->
+  Forall2 (fun c l => refines kcmp chstep chobs c l) (map fc_in fits) ls ->
+  Forall (alive_h C strict) fits ->
+  forall ms, exists eouts j e,
+    me_run K V (fchild C) (f_step chstep) (f_obs chobs) f_err pop strict (me_init fits) (map CMove ms) = Some eouts /\
+    degraded K V (length ms) (run_cursor kcmp (merge_lists kcmp ls) ms) eouts j e.
+Proof. exact merged_error_prefix. Qed.
+Print Assumptions C02_merged_error_prefix.
+
+(* 10e. dbIter: a movement call that returns false after having moved the raw iterator records the raw
+        iterator's error (iterErr); the two guards that return false without touching it are listed *)
+Theorem C02_dbiter_false_records_error : forall c p (C : Type) chstep chobs cherr seq strict fuel (s : destate C) m s',
+  de_err s = None -> de_released s = false ->
+  de_move c p C chstep chobs cherr seq strict fuel s m = DEOk s' false ->
+  (m = MNext /\ d_dir (de_base s) = DirEOI /\ s' = s) \/ (m = MPrev /\ d_dir (de_base s) = DirSOI /\ s' = s) \/
+  match cherr (d_child (de_base s')) with
+  | Some e => exists e', de_err s' = Some e'
+  | None => True
+  end.
+Proof. exact de_false_records_error. Qed.
+Print Assumptions C02_dbiter_false_records_error.
+
+(* 10f. REFUTED for dbIter: "an iterator whose child reports an error never yields a pair not in the view".
+        dbIter.prev() breaks out of its loop when i.iter.Prev() returns false and, if it has saved a pair
+        (del == false), returns TRUE without looking at i.iter.Error().  When the raw iterator fails between
+        two versions of one user key, the saved pair is the OLDER version: Last() below returns (k, "o")
+        although the live pair is (k, "n"), Error() is nil; the error surfaces one call later.  (Observed on
+        the implementation: findings/C02_dbiter_prev_stale_on_error.json; known finding
+        dbiter-prev-stale-on-raw-error.)  The same with a deletion marker on top resurrects a deleted key. *)
+Definition stale_entries : list entry :=
+  [ ({| uk := [107]%N; num := pack 5%N 1%N |}, [110]%N);       (* k@5 = "n" *)
+    ({| uk := [107]%N; num := pack 3%N 1%N |}, [111]%N) ].     (* k@3 = "o" *)
+Definition stale_deleted : list entry :=
+  [ ({| uk := [107]%N; num := pack 5%N 0%N |}, []);            (* k@5 deleted *)
+    ({| uk := [107]%N; num := pack 3%N 1%N |}, [111]%N) ].
+(* a raw iterator whose second call fails with a non-corruption error *)
+Definition stale_run (l : list entry) (cs : list (ecall bytes)) :=
+  de_run bytewise kp _ (f_step (cur_step (icmp bytewise))) (f_obs cur_obs) f_err 10%N true 5
+         (de_init (mkFC (l, SOI) (Some 1) EOther false)) cs.
+
+Theorem C02_dbiter_prev_error_yields_stale_refuted :
+  live_pairs bytewise kp 10%N stale_entries = [([107]%N, [110]%N)] /\
+  stale_run stale_entries [CMove MLast; CMove MPrev] =
+    Some [mkEO true (Some ([107]%N, [111]%N)) true None; mkEO false None false (Some EOther)] /\
+  live_pairs bytewise kp 10%N stale_deleted = [] /\
+  stale_run stale_deleted [CMove MLast; CMove MNext] =
+    Some [mkEO true (Some ([107]%N, [111]%N)) true None; mkEO false None false (Some EOther)].
+Proof. repeat split; vm_compute; reflexivity. Qed.
+Print Assumptions C02_dbiter_prev_error_yields_stale_refuted.
+
 (* 7. The constants of the current source satisfy the side conditions (re-proved on every run). *)
 Theorem C02_constants_ok : dbparams_ok kp.
 Proof. exact kp_db_ok. Qed.
@@ -360,3 +481,21 @@ Proof.
   split; [apply C01.ex_wf; left; reflexivity|]. split; [vm_compute; discriminate|]. split; [exact mp_ok|].
   split; [vm_compute; reflexivity|]. split; vm_compute; reflexivity.
 Qed.
+
+(* Non-vacuity of 10d: two children with interleaved keys, the second one fails at its third call with a
+   non-corruption error (non-strict merged iterator): First, Next, Next answer like the cursor (the second child is
+   called by First and by the Next that leaves its pair); the Prev that must reposition the failing child
+   returns false and records the error; Release and First afterwards return false, the error is kept. *)
+Example C02_nonvacuous_merged_error :
+  Forall (alive_h _ false) [mkFC (nth 0%nat ex_children [], SOI) None EOther false; mkFC (nth 1%nat ex_children [], SOI) (Some 2%nat) EOther false] /\
+  me_run bytes bytes _ (f_step (cur_step (cmp bytewise))) (f_obs cur_obs) f_err (pop_scan bytes (cmp bytewise)) false
+         (me_init [mkFC (nth 0%nat ex_children [], SOI) None EOther false; mkFC (nth 1%nat ex_children [], SOI) (Some 2%nat) EOther false])
+         [CMove MFirst; CMove MNext; CMove MNext; CMove MPrev; CRelease; CMove MFirst] =
+  Some [mkEO true (Some ([1]%N, [10]%N)) true None; mkEO true (Some ([2]%N, [20]%N)) true None;
+        mkEO true (Some ([3]%N, [30]%N)) true None; mkEO false None false (Some EOther);
+        mkEO false None false (Some EOther); mkEO false None false (Some EOther)].
+Proof.
+  split; [|vm_compute; reflexivity].
+  apply Forall_cons; [split; reflexivity|]. apply Forall_cons; [split; reflexivity|]. apply Forall_nil.
+Qed.
+
